@@ -281,7 +281,163 @@ fn witness(w: &Written, note: &str) -> Json {
     Json::obj().with("note", Json::s(note)).with("files", files)
 }
 
+/// one include file named by several directives (different spellings of the same path), directly
+/// and through two other include files (diamond): legal, must load like the flattened text, and
+/// the written file must load to an equal model
+fn shared_include_case(rng: &mut Rng, rec: &mut Recorder, scratch: &Path, case: u64) {
+    let root = scratch.join(format!("c16s_{case}"));
+    let _ = std::fs::remove_dir_all(&root);
+    std::fs::create_dir_all(root.join("common")).unwrap();
+    let annotation = format!(
+        "/begin ANNOTATION ANNOTATION_LABEL \"shared {}\" /begin ANNOTATION_TEXT \"line\" /end ANNOTATION_TEXT /end ANNOTATION\n",
+        rng.below(1000)
+    );
+    std::fs::write(root.join("common/annotation.a2l"), &annotation).unwrap();
+    let spellings = ["common/annotation.a2l", "\"common/annotation.a2l\"", "common\\annotation.a2l", "\"common\\annotation.a2l\"", "\"./common/annotation.a2l\""];
+    let diamond = rng.coin();
+    let n = rng.urange(2, 4);
+    let mut main = String::from("ASAP2_VERSION 1 71\n/begin PROJECT p \"\"\n/begin MODULE m \"\"\n");
+    let mut flat = main.clone();
+    for i in 0..n {
+        let head = format!("/begin MEASUREMENT meas{i} \"\" UBYTE NO_COMPU_METHOD 0 0 0 255\n");
+        main.push_str(&head);
+        flat.push_str(&head);
+        if diamond && i < 2 {
+            // through an intermediate include file in the main directory
+            let mid = format!("mid{i}.a2l");
+            std::fs::write(root.join(&mid), format!("ECU_ADDRESS 0x{i}0\n/include {}\n", rng.pick(&spellings))).unwrap();
+            main.push_str(&format!("/include {mid}\n"));
+            flat.push_str(&format!("ECU_ADDRESS 0x{i}0\n{annotation}"));
+        } else {
+            main.push_str(&format!("/include {}\n", rng.pick(&spellings)));
+            flat.push_str(&annotation);
+        }
+        main.push_str("/end MEASUREMENT\n");
+        flat.push_str("/end MEASUREMENT\n");
+    }
+    main.push_str("/end MODULE\n/end PROJECT\n");
+    flat.push_str("/end MODULE\n/end PROJECT\n");
+    let main_path = root.join("main.a2l");
+    std::fs::write(&main_path, &main).unwrap();
+    rec.eval();
+    rec.bump(if diamond { "shared_include.diamond" } else { "shared_include.direct" });
+    rec.nontrivial(main.as_bytes());
+    let w = Json::obj().with("case", Json::s("one include file named by several directives")).with("main", Json::s(&main));
+    crate::util::set_budget(200_000);
+    let loaded = guarded(|| a2lfile::load(&main_path, None, rng.coin()));
+    crate::util::reset_budget();
+    let m = match loaded {
+        Err((sig, detail)) => {
+            rec.violation(&format!("{sig} [shared include file]"), &detail, w);
+            let _ = std::fs::remove_dir_all(&root);
+            return;
+        }
+        Ok(Err(e)) => {
+            rec.violation(
+                &format!("file that includes one file several times is rejected: {}", crate::gram::err_class(&e)),
+                &e.to_string(),
+                w,
+            );
+            let _ = std::fs::remove_dir_all(&root);
+            return;
+        }
+        Ok(Ok((m, _))) => m,
+    };
+    match load_str(&flat, false) {
+        Ok(Ok((r, _))) => {
+            if r != m {
+                rec.violation(
+                    "model loaded through /include differs from the model of the flattened text [shared include file]",
+                    &crate::c01::model_diff(&r, &m),
+                    w.clone(),
+                );
+            }
+        }
+        _ => rec.bump("flattened_rejected"),
+    }
+    let written = root.join("written.a2l");
+    std::fs::write(&written, m.write_to_string()).unwrap();
+    // the diamond has an include file that includes another one: writing such a tree is the known
+    // nested-include finding, reported under its own signature
+    let suffix = if diamond {
+        "[nested include: sibling run of an include file moved to a deeper include file]"
+    } else {
+        "[shared include file]"
+    };
+    match guarded(|| a2lfile::load(&written, None, false)) {
+        Err((sig, detail)) => rec.violation(&format!("{sig} in reload of the written file [shared include file]"), &detail, w),
+        Ok(Err(e)) => rec.violation(&format!("written file with include directives does not load {suffix}"), &e.to_string(), w),
+        Ok(Ok((m2, _))) => {
+            if m2 != m {
+                rec.violation(
+                    &format!("model reloaded from the written file differs {suffix}"),
+                    &crate::c01::model_diff(&m, &m2),
+                    w,
+                );
+            }
+        }
+    }
+    let _ = std::fs::remove_dir_all(&root);
+}
+
+/// an A2ML block that stands in an A2L include file and pulls its type definitions from an A2ML
+/// include file: the path of the A2ML include is relative to the file that holds the A2ML block
+fn a2ml_in_include_file_case(rng: &mut Rng, rec: &mut Recorder, scratch: &Path, case: u64) {
+    let root = scratch.join(format!("c16a_{case}"));
+    let _ = std::fs::remove_dir_all(&root);
+    let sub = *rng.pick(&["sub", "d1/deep", "."]);
+    std::fs::create_dir_all(root.join(sub).join("aml")).unwrap();
+    std::fs::write(root.join(sub).join("aml/types.aml"), "struct inc_t { uint; ulong; };\n").unwrap();
+    let directive = if rng.coin() { "/include \"aml/types.aml\"" } else { "/include aml/types.aml" };
+    let part = format!(
+        "/begin A2ML\n {directive}\n block \"IF_DATA\" taggedunion {{ \"INCX\" struct inc_t; }};\n/end A2ML\n/begin IF_DATA INCX 5 70000\n/end IF_DATA\n"
+    );
+    std::fs::write(root.join(sub).join("mod_part.a2l"), &part).unwrap();
+    let inc_name = if sub == "." { "mod_part.a2l".to_string() } else { format!("{sub}/mod_part.a2l") };
+    let main = format!("ASAP2_VERSION 1 71\n/begin PROJECT p \"\"\n/begin MODULE m \"\"\n/include \"{inc_name}\"\n/end MODULE\n/end PROJECT\n");
+    let main_path = root.join("main.a2l");
+    std::fs::write(&main_path, &main).unwrap();
+    rec.eval();
+    rec.bump("a2ml_block_in_include_file");
+    rec.nontrivial(format!("{main}{part}").as_bytes());
+    let w = Json::obj()
+        .with("case", Json::s("A2ML block with an A2ML include inside an A2L include file"))
+        .with("main", Json::s(&main))
+        .with(&inc_name, Json::s(&part));
+    let strict = rng.coin();
+    crate::util::set_budget(200_000);
+    let loaded = guarded(|| a2lfile::load(&main_path, None, strict));
+    crate::util::reset_budget();
+    match loaded {
+        Err((sig, detail)) => rec.violation(&format!("{sig} [A2ML block in an include file]"), &detail, w),
+        Ok(Err(e)) => rec.violation(
+            &format!("file whose include file holds an A2ML block with an A2ML include is rejected: {}", crate::gram::err_class(&e)),
+            &e.to_string(),
+            w,
+        ),
+        Ok(Ok((m, log))) => {
+            let valid = m.project.module[0].if_data.first().is_some_and(|i| i.ifdata_valid);
+            if !log.is_empty() || !valid {
+                rec.violation(
+                    "A2ML include of an A2ML block inside an include file is not resolved relative to that file",
+                    &format!("log: {:?}; IF_DATA valid: {valid}", log.iter().map(|e| e.to_string()).collect::<Vec<_>>()),
+                    w,
+                );
+            }
+        }
+    }
+    let _ = std::fs::remove_dir_all(&root);
+}
+
 fn fault_case(rng: &mut Rng, rec: &mut Recorder, scratch: &Path, case: u64) {
+    if case % 4 == 3 {
+        shared_include_case(rng, rec, scratch, case);
+        return;
+    }
+    if case % 4 == 1 && case % 8 == 5 {
+        a2ml_in_include_file_case(rng, rec, scratch, case);
+        return;
+    }
     let root = scratch.join(format!("c16f_{case}"));
     let _ = std::fs::remove_dir_all(&root);
     std::fs::create_dir_all(root.join("sub")).unwrap();
@@ -710,7 +866,7 @@ pub fn run(args: &Args, rec: &mut Recorder) {
     let _ = std::fs::remove_dir_all(&scratch);
     for k in ["levels.1", "levels.2", "a2ml_block_with_include", "include_inside_if_data", "fault.missing_file", "fault.directory_instead_of_file",
         "fault.empty_file", "fault.self_inclusion", "fault.mutual_inclusion", "fault.missing_file_in_nested_include",
-        "fault.a2ml_self_inclusion", "fault.a2ml_mutual_inclusion", "fault.a2ml_missing_file"] {
+        "fault.a2ml_self_inclusion", "fault.a2ml_mutual_inclusion", "fault.a2ml_missing_file", "shared_include.direct", "shared_include.diamond", "a2ml_block_in_include_file"] {
         rec.floor(k, 2);
     }
 }
